@@ -381,6 +381,61 @@ func genTEIBoundary(c *Ctx) {
 	}
 }
 
+func genTEIExtend(c *Ctx, n int) {
+	for i := 0; i < n; i++ {
+		s1 := 3 + c.R.Intn(4)
+		s2 := s1
+		if c.R.Chance(2, 3) {
+			s2 = 3 + c.R.Intn(6)
+		}
+		p := tak.New(tak.Config{Size: s1})
+		var mv []string
+		var cmds []string
+		cmds = append(cmds, "teinewgame "+strconv.Itoa(s1))
+		grow := func(k int) {
+			for tries := 0; k > 0 && tries < 50; tries++ {
+				ms := p.AllMoves(nil)
+				if len(ms) == 0 {
+					return
+				}
+				m := ms[c.R.Intn(len(ms))]
+				next, err := p.Move(m)
+				if err != nil {
+					continue
+				}
+				if over, _ := next.GameOver(); over {
+					continue
+				}
+				p = next
+				mv = append(mv, ptn.FormatMove(m))
+				k--
+			}
+		}
+		line := func() string {
+			if len(mv) == 0 {
+				return "position startpos"
+			}
+			return "position startpos moves " + strings.Join(mv, " ")
+		}
+		grow(c.R.Intn(4))
+		for j := 1 + c.R.Intn(3); j > 0; j-- {
+			cmds = append(cmds, line(), "go")
+			grow(1 + c.R.Intn(2))
+		}
+		cmds = append(cmds, "teinewgame "+strconv.Itoa(s2), line(), "go")
+		if c.R.Chance(1, 2) {
+			grow(1)
+			cmds = append(cmds, line(), "go")
+		}
+		out := c.Emit(teiLine("tei", 1, joinStream(cmds, true)))
+		k := "same-size"
+		if s2 != s1 {
+			k = "other-size"
+		}
+		c.Count("tei.extend." + k + "." + clip(out, 3))
+	}
+}
+
 func genC17(c *Ctx) {
 	genBudget(c)
 	genTEIBoundary(c)
@@ -397,6 +452,9 @@ func genC17(c *Ctx) {
 		out := c.Emit(teiLine("tei", depth, joinStream(cmds, !c.R.Chance(1, 20))))
 		countTEI(c, out)
 	}
+	// `position` lines that EXTEND the previous one (what a GUI sends ply by ply), within a game and - the trap - across a
+	// `teinewgame` of another size: the new game's first line is the old game's last line plus moves
+	genTEIExtend(c, c.Scale(200, 12000))
 	// pipelined controllers: the same kind of streams handed over in chunks that ignore line boundaries (1 byte, a few
 	// bytes, everything at once), among them streams whose LAST command is fatal after several answered `go`s - what was
 	// written for the earlier commands must be there when Run returns
@@ -644,6 +702,7 @@ func malformedHistory(c *Ctx) ([]string, bool) {
 }
 
 func genC13tei(c *Ctx) {
+	genTEIExtend(c, c.Scale(120, 8000))
 	n := c.Scale(6000, 600000)
 	for i := 0; i < n; i++ {
 		cmds, timing := malformedHistory(c)
